@@ -132,6 +132,7 @@ type config struct {
 	manual               bool
 	retries              bool
 	comp                 string
+	fromConfig           bool // built from an "http-transport" configuration block, as the server does
 }
 
 func newRig(t vt.TB, c config) *rigT {
@@ -151,11 +152,11 @@ func newRig(t vt.TB, c config) *rigT {
 		elapsed = -1
 	}
 	var err error
-	var fcArg verifhooks.Coordinator = fc
+	params := rig.ForwarderParams{Endpoint: "http://up.invalid", Slots: c.slots, MaxRequests: c.maxReq, Merge: c.merge, Compress: c.comp != "none", CompType: c.comp, Level: 3, Elapsed: elapsed, FlushInterval: time.Hour, Dynamic: c.headers}
 	if c.manual {
-		r.fwd, err = statsd.NewHttpForwarderHandlerV2(logrus.StandardLogger(), "default", "http://up.invalid", c.slots, c.maxReq, c.merge, c.comp != "none", c.comp, 3, elapsed, time.Hour, nil, c.headers, pool, fcArg)
+		r.fwd, err = rig.NewForwarder(c.fromConfig, params, pool, fc)
 	} else {
-		r.fwd, err = statsd.NewHttpForwarderHandlerV2(logrus.StandardLogger(), "default", "http://up.invalid", c.slots, c.maxReq, c.merge, c.comp != "none", c.comp, 3, elapsed, time.Hour, nil, c.headers, pool, nil)
+		r.fwd, err = rig.NewForwarder(c.fromConfig, params, pool, nil)
 	}
 	if err != nil {
 		t.Fatalf("forwarder: %v", err)
@@ -187,9 +188,10 @@ func newRig(t vt.TB, c config) *rigT {
 			cut, o = true, "2xx"
 		}
 		hdr := map[string]string{}
-		for _, h := range []string{"Region", "Service"} {
+		// header name -> the tag name it is derived from (underscores travel as hyphens)
+		for h, tagName := range map[string]string{"Region": "region", "Service": "service", "Tenant-Id": "tenant_id"} {
 			if v := a.Header.Get(h); v != "" {
-				hdr[strings.ToLower(h)] = v
+				hdr[tagName] = v
 			}
 		}
 		r.mu.Lock()
@@ -287,6 +289,9 @@ func uniqueMap(t *rapid.T, headerTags bool, bits map[string]uint) *gostatsd.Metr
 			if s := rapid.SampledFrom([]string{"", "service:web", "service:api", "service:web:8080"}).Draw(t, "service"); s != "" {
 				m.Tags = append(m.Tags, s)
 			}
+			if s := rapid.SampledFrom([]string{"", "", "tenant_id:t1", "tenant_id:t2"}).Draw(t, "tenant"); s != "" {
+				m.Tags = append(m.Tags, s)
+			}
 		}
 		if rapid.Bool().Draw(t, "othertag") {
 			m.Tags = append(m.Tags, "k:v")
@@ -378,8 +383,9 @@ func runForwarder(t *testing.T, faults bool) {
 		c := config{slots: rapid.IntRange(1, 4).Draw(t, "slots"), merge: rapid.IntRange(1, 3).Draw(t, "concurrent-merge"), maxReq: rapid.IntRange(1, 4).Draw(t, "max-requests"),
 			manual: rapid.Bool().Draw(t, "manual-flush"), retries: true, comp: rapid.SampledFrom([]string{"none", "zlib", "lz4"}).Draw(t, "compression")}
 		if !c.manual {
-			c.headers = rapid.SampledFrom([][]string{nil, {"region"}, {"region", "service"}, {"service"}}).Draw(t, "dynamic-headers")
+			c.headers = rapid.SampledFrom([][]string{nil, {"region"}, {"region", "service"}, {"service"}, {"tenant_id"}, {"region", "tenant_id"}}).Draw(t, "dynamic-headers")
 		}
+		c.fromConfig = rapid.Bool().Draw(t, "built-from-configuration")
 		// per-body scripts: body index -> outcomes per attempt
 		scripts := map[int][]string{}
 		alwaysFail := map[int]bool{}
